@@ -224,6 +224,49 @@ CONTRACTS = [
 ]
 
 
+class TagAdapter(conn_http.RequestAdapter):
+    """adapter whose response processing is observable: wraps the value it is given"""
+
+    def __init__(self, tag):
+        self.tag = tag
+
+    def process_response(self, return_value):
+        return (self.tag, return_value)
+
+
+class StubResponse:
+    """what the dropped network part leaves behind: a response whose body has been read"""
+
+    def __init__(self, data):
+        self.data = data
+
+
+def processed(adapters, value):
+    """response processors applied in REVERSE order of the chain"""
+    v = value
+    for a in reversed(adapters):
+        v = a.process_response(v)
+    return v
+
+
+TAG = lambda: T.obj(__name__ + ':TagAdapter', tag=T.str)     # noqa
+
+CONTRACTS.append(
+    # the suffix of do_request after the response has been read: decoding + response processors
+    Contract(M, '_HttpConnImpl.do_request', name='_HttpConnImpl.do_request/response', prop=PROP, spec_globals=G,
+             level='top',
+             body_slice={'start_after': 'self._log_response(response, url)', 'args': ['self', 'adapters', 'raw_response', 'response']},
+             params={'self': T.obj('ak.conn_http:_HttpConnImpl', address=T.str, _cur_req_id=T.none),
+                     'adapters': T.one_of(T.list(), T.list(TAG()), T.list(TAG(), TAG()), T.list(TAG(), MARK(), TAG())),
+                     'raw_response': T.bool,
+                     'response': T.obj(__name__ + ':StubResponse', data=T.const(b''))},
+             ensures={
+                 'processors_in_reverse_order': "result == processed(adapters, response if raw_response else '')",
+             },
+             raises={}, modifies=[],
+             note="bounded-symbolic in the chain (<= 3 adapters); empty response body (json decoding is library code)"))
+
+
 def chain_path(adapters, path):
     """prefixes applied in list order: the first adapter's prefix ends up innermost"""
     p = path
@@ -243,7 +286,7 @@ def auth_headers(adapters):
     return out
 
 
-BOUNDED_SYMBOLIC = {'_HttpConnImpl.do_request/assembly': 2}
+BOUNDED_SYMBOLIC = {'_HttpConnImpl.do_request/assembly': 2, '_HttpConnImpl.do_request/response': 3}
 
 USES = {}
 
